@@ -204,32 +204,55 @@ Fixpoint add_term_ref (fuel : nat) (sum : T) (l : list T) : bool * list T :=
          | S f => add_term_ref f reduced rest
          end.
 
+Definition model_loop_tail : list at_stmt :=
+  [AtIf AcInserted [AtReturn] []; AtReducedInit; AtReducedAddSum; AtErase; AtIf (AcNegligible 1) [AtReturn] []; AtSumAssign].
+
+(** the statements after `res = data.insert(sum)`, on a state whose fields are explicit *)
+Lemma tail_exec (term sum red : T) (l' : list T) (ins : bool) (e : T) (rest : list T) :
+  at_exec_list T comp plus negl term model_loop_tail (mk_ast T l' sum red (ins, e, rest) false false) =
+  if ins then mk_ast T l' sum red (ins, e, rest) true false
+  else if negl (plus e sum) (length rest + 1) then mk_ast T rest sum (plus e sum) (ins, e, rest) true false
+       else mk_ast T rest (plus e sum) (plus e sum) (ins, e, rest) false false.
+Proof.
+  destruct ins.
+  - reflexivity.
+  - unfold model_loop_tail.
+    change (at_exec_list T comp plus negl term
+              [AtIf (AcNegligible 1) [AtReturn] []; AtSumAssign]
+              (mk_ast T rest sum (plus e sum) (false, e, rest) false false) =
+            if negl (plus e sum) (length rest + 1) then mk_ast T rest sum (plus e sum) (false, e, rest) true false
+            else mk_ast T rest (plus e sum) (plus e sum) (false, e, rest) false false).
+    cbn [at_exec_list at_exec a_done at_cond_eval a_reduced a_data].
+    destruct (negl (plus e sum) (length rest + 1)); reflexivity.
+Qed.
+
+Lemma body_exec (term sum red : T) (res : bool * T * list T) (l : list T) :
+  at_exec_list T comp plus negl term (AtInsert :: model_loop_tail) (mk_ast T l sum red res false false) =
+  at_exec_list T comp plus negl term model_loop_tail
+    (mk_ast T (snd (insert_src T comp sum l)) sum red (fst (insert_src T comp sum l)) false false).
+Proof. reflexivity. Qed.
+
 Lemma at_loop_is_ref (term : T) : forall fuel sum red res l,
-  let s := at_loop T (at_exec_list T comp plus negl term
-             [AtInsert; AtIf AcInserted [AtReturn] []; AtReducedInit; AtReducedAddSum; AtErase;
-              AtIf (AcNegligible 1) [AtReturn] []; AtSumAssign]) fuel (mk_ast T l sum red res false false) in
+  let s := at_loop T (at_exec_list T comp plus negl term (AtInsert :: model_loop_tail)) fuel (mk_ast T l sum red res false false) in
   (negb (a_fail T s), a_data T s) = add_term_ref fuel sum l.
 Proof.
-  induction fuel as [|f IH]; intros sum red res l.
-  - cbn [at_loop add_term_ref at_exec_list at_exec a_done a_data a_sum a_reduced a_res at_cond_eval].
-    destruct (insert_src T comp sum l) as [[[ins e] rest] l']. cbn [fst snd].
-    destruct ins; cbn [at_exec a_done a_data a_sum a_reduced a_res a_fail negb fst snd at_cond_eval]; [reflexivity|].
-    destruct (negl (plus e sum) (length rest + 1)); cbn [at_exec a_done a_data a_sum a_reduced a_res a_fail negb fst snd]; reflexivity.
-  - cbn [at_loop add_term_ref at_exec_list at_exec a_done a_data a_sum a_reduced a_res at_cond_eval].
-    destruct (insert_src T comp sum l) as [[[ins e] rest] l']. cbn [fst snd].
-    destruct ins; cbn [at_exec a_done a_data a_sum a_reduced a_res a_fail negb fst snd at_cond_eval]; [reflexivity|].
-    destruct (negl (plus e sum) (length rest + 1)); cbn [at_exec a_done a_data a_sum a_reduced a_res a_fail negb fst snd]; [reflexivity|].
-    apply IH.
+  induction fuel as [|f IH]; intros sum red res l; cbv zeta.
+  - cbn [at_loop add_term_ref]. rewrite body_exec.
+    destruct (insert_src T comp sum l) as [[[ins e] rest] l']. cbn [fst snd]. rewrite tail_exec.
+    destruct ins; [reflexivity|]. destruct (negl (plus e sum) (length rest + 1)); reflexivity.
+  - cbn [at_loop add_term_ref]. rewrite body_exec.
+    destruct (insert_src T comp sum l) as [[[ins e] rest] l']. cbn [fst snd]. rewrite tail_exec.
+    destruct ins; [reflexivity|]. destruct (negl (plus e sum) (length rest + 1)); [reflexivity|].
+    cbn [a_done]. apply IH.
 Qed.
 
 Theorem add_term_by_model (term : T) (l : list T) :
   add_term_by T comp plus negl model_add_term term l = add_term_ref (length l) term l.
 Proof.
-  unfold add_term_by. cbn [model_add_term at_exec_list at_exec a_done a_data].
-  match goal with |- context [at_loop T ?body ?fuel ?s] =>
-    change body with (at_exec_list T comp plus negl term
-             [AtInsert; AtIf AcInserted [AtReturn] []; AtReducedInit; AtReducedAddSum; AtErase;
-              AtIf (AcNegligible 1) [AtReturn] []; AtSumAssign]) end.
+  unfold add_term_by.
+  change (at_exec_list T comp plus negl term model_add_term (mk_ast T l term term (false, term, l) false false))
+    with (at_loop T (at_exec_list T comp plus negl term (AtInsert :: model_loop_tail)) (length l)
+                  (mk_ast T l term term (false, term, l) false false)).
   apply at_loop_is_ref.
 Qed.
 End AddTermRef.
